@@ -185,6 +185,9 @@ func genCommon(t *rapid.T, mode string) Case {
 	c.Named = rapid.IntRange(0, 3).Draw(t, "named") == 3
 	c.Used = rapid.IntRange(0, 2).Draw(t, "used") == 0
 	c.OwnComma = rapid.IntRange(0, 2).Draw(t, "own-separator-on-the-callers-csv-object") == 0
+	if mode != "agree" && rapid.IntRange(0, 4).Draw(t, "byte-sink-fails") == 0 {
+		c.SinkFail = 1 + rapid.IntRange(0, len(txt)+2).Draw(t, "sink-room")
+	}
 	if rapid.IntRange(0, 3).Draw(t, "writer-to-source-fails") == 0 {
 		c.SrcFail = 1 + rapid.IntRange(0, len(txt)).Draw(t, "source-fails-after")
 		c.SrcErr = rapid.SampledFrom([]string{"", "unexpected-eof"}).Draw(t, "source-error")
@@ -449,6 +452,9 @@ func Classify(c Case) (bool, []string) {
 	}
 	if c.Chunk > 0 {
 		add("variant:chunked-stream")
+	}
+	if c.SinkFail > 0 && c.Mode != "agree" {
+		add("the byte sink refuses writes beyond a limit")
 	}
 	if c.OwnComma && c.Kind == kCSV && (c.Mode == "produce" && c.Opts.Comma == 0 || c.Mode == "consume" && c.Opts.WComma == 0) {
 		add("the caller's own csv object carries its own separator")
